@@ -25,6 +25,7 @@ import (
 	"math/big"
 	"net"
 	"net/netip"
+	"os"
 	"strings"
 	"sync"
 	"testing"
@@ -93,6 +94,7 @@ func vcNet(n *net.IPNet) string {
 	}
 	return fmt.Sprintf("(mkNet %s %s %s)", vcN(bits), vcBigN(base), vcN(ones))
 }
+
 // the reference reading of one allow entry, written here independently of Provision: CIDR
 // notation, or a bare address standing for the single-host range (/32 for IPv4 - also when it
 // is written IPv4-mapped -, /128 for IPv6)
@@ -531,7 +533,11 @@ func vC12IsShort(err error) bool {
 
 func (e *vC12) parseCase(in []byte, cls string) {
 	r := bufio.NewReader(bytes.NewReader(in))
-	h, err := proxyprotocol.Parse(r)
+	var h proxyprotocol.Header
+	err := vC12Guard("proxyprotocol.Parse", map[string]any{"input": fmt.Sprintf("%q", in)}, func() (perr error) {
+		h, perr = proxyprotocol.Parse(r)
+		return perr
+	})
 	obs := "OBad"
 	if err != nil {
 		if vC12IsShort(err) {
@@ -813,7 +819,8 @@ func (e *vC12) allowCases(allow []string, timeout time.Duration) {
 			remote := vC12PeerAddr(e.rng, ps, kind)
 			in, out := net.Pipe()
 			cx := layer4.WrapConnection(&vC12Conn{Conn: in, remote: remote, local: &net.TCPAddr{IP: net.IPv4(127, 0, 0, 1), Port: 443}}, []byte{}, zap.NewNop())
-			c := h.newConn(cx)
+			var c *proxyprotocol.Conn
+			_ = vC12Guard("Handler.newConn", map[string]any{"allow": allow, "peer": fmt.Sprint(remote)}, func() error { c = h.newConn(cx); return nil })
 			in.Close()
 			out.Close()
 			parsed := c != nil
@@ -925,29 +932,31 @@ func vC12Run(h *Handler, remote, local net.Addr, prefetched []byte, segs [][]byt
 		out.Close()
 	}()
 	o := vC12Obs{kind: "nonext"}
-	err := h.Handle(cx, layer4.HandlerFunc(func(c *layer4.Connection) error {
-		o.kind = "next"
-		if c.GetVar("l4.proxy_protocol.conn") == nil {
-			o.kind = "pass"
-		}
-		o.remote, o.local = c.RemoteAddr(), c.LocalAddr()
-		if repl, ok := c.Context.Value(layer4.ReplacerCtxKey).(*caddy.Replacer); ok {
-			rv, ok1 := repl.Get("l4.conn.remote_addr")
-			lv, ok2 := repl.Get("l4.conn.local_addr")
-			o.replRemote, _ = rv.(net.Addr)
-			o.replLocal, _ = lv.(net.Addr)
-			o.replOK = ok1 && ok2 && o.replRemote != nil && o.replLocal != nil
-		}
-		if hst := vC12HostOf(wantRemote); hst != "" {
-			o.mRemote = vC12IPMatch(&layer4.MatchRemoteIP{Ranges: []string{hst}}, c)
-		}
-		if hst := vC12HostOf(wantLocal); hst != "" {
-			o.mLocal = vC12IPMatch(&layer4.MatchLocalIP{Ranges: []string{hst}}, c)
-		}
-		b, _ := io.ReadAll(c)
-		o.data = b
-		return nil
-	}))
+	err := vC12Guard("Handler.Handle", map[string]any{"peer": fmt.Sprint(remote), "prefetched": fmt.Sprintf("%q", prefetched), "segments": fmt.Sprintf("%q", segs)}, func() error {
+		return h.Handle(cx, layer4.HandlerFunc(func(c *layer4.Connection) error {
+			o.kind = "next"
+			if c.GetVar("l4.proxy_protocol.conn") == nil {
+				o.kind = "pass"
+			}
+			o.remote, o.local = c.RemoteAddr(), c.LocalAddr()
+			if repl, ok := c.Context.Value(layer4.ReplacerCtxKey).(*caddy.Replacer); ok {
+				rv, ok1 := repl.Get("l4.conn.remote_addr")
+				lv, ok2 := repl.Get("l4.conn.local_addr")
+				o.replRemote, _ = rv.(net.Addr)
+				o.replLocal, _ = lv.(net.Addr)
+				o.replOK = ok1 && ok2 && o.replRemote != nil && o.replLocal != nil
+			}
+			if hst := vC12HostOf(wantRemote); hst != "" {
+				o.mRemote = vC12IPMatch(&layer4.MatchRemoteIP{Ranges: []string{hst}}, c)
+			}
+			if hst := vC12HostOf(wantLocal); hst != "" {
+				o.mLocal = vC12IPMatch(&layer4.MatchLocalIP{Ranges: []string{hst}}, c)
+			}
+			b, _ := io.ReadAll(c)
+			o.data = b
+			return nil
+		}))
+	})
 	in.Close()
 	<-done
 	if err != nil {
@@ -955,6 +964,25 @@ func vC12Run(h *Handler, remote, local net.Addr, prefetched []byte, segs [][]byt
 		o.err = err.Error()
 	}
 	return o
+}
+
+// vC12Guard runs f under recover(): no remote input may make the handler, its allow-list lookup
+// or the library's header parser panic. A panic is reported for C12 and, under its own key, for
+// the no-panic property C04 (./check C04 runs this engine through vlib/engines/c04_pp_handler.py).
+var vC12PanicOut *vOut
+
+func vC12Guard(where string, input map[string]any, f func() error) (err error) {
+	defer func() {
+		if r := recover(); r != nil {
+			err = fmt.Errorf("panic in %s: %v", where, r)
+			if vC12PanicOut != nil {
+				input["where"], input["panic"] = where, fmt.Sprint(r)
+				vC12PanicOut.Fail("C12:handler:panic", "the proxy_protocol handler panicked on remote input: "+fmt.Sprint(r), input)
+				vC12PanicOut.Fail("C04:proxy_protocol-handler:panic", "the proxy_protocol handler ("+where+") panicked on remote input: "+fmt.Sprint(r), input)
+			}
+		}
+	}()
+	return f()
 }
 
 func vC12SameAddr(a, b net.Addr) bool {
@@ -1287,7 +1315,7 @@ func (e *vC12) routeCases(base []vHdr) {
 						}
 					}
 				}()
-				herr := compiled.Handle(cx)
+				herr := vC12Guard("RouteList[proxy_protocol ...].Handle", map[string]any{"header": fmt.Sprintf("%q", hbytes), "segments": fmt.Sprintf("%q", segs)}, func() error { return compiled.Handle(cx) })
 				in.Close()
 				<-done
 				out.Close()
@@ -1354,12 +1382,94 @@ func vC12Payload(r *vRng, n int) []byte {
 	return b
 }
 
+// panicProbe is what ./check C04 runs: every kind of input a remote peer can send to the handler
+// (all header kinds incl. the address-less v2 forms LOCAL / UNSPEC family / UNSPEC transport,
+// every prefix, 1-2 byte mutations, the hand-written corpus, garbage) through Handler.Handle with
+// and without an allow list and from TCP, UDP, zoned and unix peers, all under recover().
+func (e *vC12) panicProbe(n int) {
+	r := e.rng
+	hNone, c1 := vC12Provision(nil, 0)
+	defer c1()
+	hAllow, c2 := vC12Provision([]string{"10.0.0.0/8", "fe80::/10", "::1"}, 0)
+	defer c2()
+	loc := &net.TCPAddr{IP: net.IPv4(127, 0, 0, 1).To4(), Port: 4433}
+	peers := []net.Addr{
+		&net.TCPAddr{IP: net.IPv4(10, 1, 2, 3).To4(), Port: 51000},
+		&net.UDPAddr{IP: net.ParseIP("fe80::1"), Port: 5353, Zone: "eth0"},
+		&net.TCPAddr{IP: net.IPv4(192, 0, 2, 1).To4(), Port: 1},
+		&net.UnixAddr{Net: "unix", Name: "/peer"},
+		&net.TCPAddr{Port: 7},
+	}
+	runs := 0
+	probe := func(in []byte, cls string, all bool) {
+		e.emit("CProbe "+cHex(in), "c04/"+cls, len(in) > 0, nil)
+		for i, p := range peers {
+			if !all && i != runs%len(peers) {
+				continue
+			}
+			for _, h := range []*Handler{hNone, hAllow} {
+				vC12Run(h, p, loc, nil, [][]byte{in}, nil, nil)
+				runs++
+			}
+		}
+		if all && len(in) > 3 {
+			vC12Run(hNone, peers[0], loc, in[:2], [][]byte{in[2:3], in[3:]}, nil, nil)
+			runs++
+		}
+	}
+	base := vC12BaseHdrs()
+	// the address-less and odd v2 forms, explicitly
+	v2 := func(b12, b13 byte, blk []byte) []byte {
+		b := []byte{0x0D, 0x0A, 0x0D, 0x0A, 0x00, 0x0D, 0x0A, 0x51, 0x55, 0x49, 0x54, 0x0A, b12, b13}
+		b = binary.BigEndian.AppendUint16(b, uint16(len(blk)))
+		return append(b, blk...)
+	}
+	for _, cmd := range []byte{0x20, 0x21} {
+		for fam := 0; fam < 4; fam++ {
+			for proto := 0; proto < 3; proto++ {
+				blk := make([]byte, []int{0, 12, 36, 216}[fam])
+				copy(blk, r.Bytes(len(blk)))
+				probe(append(v2(cmd, byte(fam<<4|proto), blk), "payload"...), fmt.Sprintf("v2-forms/cmd%x", cmd), true)
+			}
+		}
+	}
+	for _, h := range base {
+		enc := h.encode()
+		probe(append(append([]byte{}, enc...), "payload"...), h.name(), true)
+		for k := 0; k <= len(enc); k++ {
+			probe(enc[:k], "prefix/"+h.name(), false)
+		}
+	}
+	for _, s := range vC12Corpus {
+		probe([]byte(s), "corpus", false)
+	}
+	for i := 0; i < n; i++ {
+		h := vC12RandHdr(r)
+		enc := append(h.encode(), vC12Payload(r, r.Intn(20))...)
+		probe(enc, h.name(), false)
+		for k := 0; k < 3; k++ {
+			if h.ver == 1 {
+				probe(e.mutate(enc), "mut/v1", false)
+			} else {
+				probe(e.mutateV2(enc), "mut/v2", false)
+			}
+		}
+		probe(r.Bytes(r.Intn(40)), "garbage", false)
+	}
+	e.out.Stat("c04_handler_runs", runs)
+}
+
 func TestVerifC12(t *testing.T) {
 	out := vOpen()
 	defer out.Close()
 	e := &vC12{out: out, rng: vNewRng(vSeed()), seen: map[string]bool{}}
+	vC12PanicOut = out
 	r := e.rng
 	n := vN(200)
+	if os.Getenv("VERIF_PROP") == "C04" {
+		e.panicProbe(n)
+		return
+	}
 
 	// ---- 1. codec
 	base := vC12BaseHdrs()
